@@ -291,6 +291,58 @@ def _expected_stdout(listing):
 
 
 # =================================================================================================
+# the tree must not change under a run
+# =================================================================================================
+
+_FP0 = None
+
+
+def _fingerprint():
+    h = hashlib.sha256()
+    files = [os.path.join(common.REPO, "assembler.py")]
+    for root, _, names in os.walk(os.path.join(common.REPO, "cocoasm")):
+        files += [os.path.join(root, n) for n in names if n.endswith(".py")]
+    for f in sorted(files):
+        try:
+            h.update(f.encode() + b"\0" + open(f, "rb").read())
+        except OSError:
+            h.update(f.encode() + b"\0<unreadable>")
+    return h.hexdigest()[:16]
+
+
+def _replay_problems(r):
+    kind = r.get("kind")
+    if kind == "correspondence":
+        files = r.get("files")
+        i = asmlib.impl_batch([(r["program"], files)])[0]
+        m = asmlib.model_batch([(r["program"], files)])[0]
+        return [] if asmlib.same_obs(i, m) else [("impl %s model %s" % (str(i)[:150], str(m)[:150]), r, False)]
+    if kind in ("history", "cli"):
+        return c17_replay(r)
+    if kind == "relation":
+        return c18_replay(r)
+    if kind == "include":
+        return c19_replay(r)
+    return None
+
+
+def _report(rep, what, payload, found_input=True):
+    """rep.violation, except that a finding made while the /repo sources were being changed under the run (the
+    fingerprint differs from the one taken at the start) is re-run as a single case first and dropped if it passes."""
+    if _FP0 is not None and not rep.full() and _fingerprint() != _FP0:
+        rep.cov["repo_changed_during_run"] = True
+        try:
+            still = _replay_problems(dict(payload))
+        except Exception as e:  # noqa
+            still = [("re-run failed: %r" % e, payload, found_input)]
+        if still is not None and not still:
+            rep.cov["dropped_after_repo_change"] = rep.cov.get("dropped_after_repo_change", 0) + 1
+            log("  (not reported: found while /repo was changing, passes when re-run alone) " + what[:160])
+            return
+    rep.violation(what, payload, found_input)
+
+
+# =================================================================================================
 # C17
 # =================================================================================================
 
@@ -433,7 +485,7 @@ def run_c17(tier, rng, rep, info, deadline):
     broken = set()
     for what, pay, fi in probs:
         broken.add(_h(pay["program"]))
-        rep.violation(what, pay, fi)
+        _report(rep, what, pay, fi)
     model = asmlib.model_batch([(p, None) for p in pool])
     # (c) warm histories
     bad = [i for i, o in enumerate(ref) if o is not None and o[0] in ("DIAG", "INTERNAL")]
@@ -470,7 +522,7 @@ def run_c17(tier, rng, rep, info, deadline):
                 rep.sample({"history": [pool[i] for i in h[:-1]], "program": pool[h[-1]], "obs": str(ref[h[-1]])[:200]})
             for what, pay, fi in c17_check_history(pool, ref, h, r, j[1]):
                 broken.add(_h(pay["program"]))
-                rep.violation(what, pay, fi)
+                _report(rep, what, pay, fi)
         if rep.full():
             break
     # (d) the real CLI under different hash seeds
@@ -482,7 +534,7 @@ def run_c17(tier, rng, rep, info, deadline):
         hist["cli:" + (_cls(ref[i]) if ref[i] else "crash")] += 1
         for what, pay, fi in ps:
             broken.add(_h(pay["program"]))
-            rep.violation(what, pay, fi)
+            _report(rep, what, pay, fi)
     # (b) model on P alone
     corr_reports = 0
     for i, prog in enumerate(pool):
@@ -497,7 +549,7 @@ def run_c17(tier, rng, rep, info, deadline):
             if _h(prog) in broken or corr_reports >= 2:
                 continue
             corr_reports += 1
-            rep.violation("correspondence MProgram.assemble vs Program.process broken on a program assembled alone: impl %s, model %s"
+            _report(rep, "correspondence MProgram.assemble vs Program.process broken on a program assembled alone: impl %s, model %s"
                           % (str(ref[i])[:160], str(model[i])[:160]),
                           {"kind": "history", "history": [], "program": prog, "impl": ref[i], "model": model[i],
                            "relation": "asmlib.same_obs(impl, model)"}, found_input=False)
@@ -955,7 +1007,7 @@ def run_c18(tier, rng, rep, info, deadline):
                 known.append((c, status.split(":", 1)[1], what, bo))
             elif status == "violation":
                 implicated.update((c["base"], len(bases) + k))
-                rep.violation("%s: %s" % (c["relation"], what),
+                _report(rep, "%s: %s" % (c["relation"], what),
                               {"kind": "relation", "relation": c["relation"], "program": c["program"], "variant": c["variant"],
                                "params": c["params"], "base_obs": bo, "variant_obs": vo})
         for k, (i, m) in enumerate(zip(impl, model)):
@@ -968,7 +1020,7 @@ def run_c18(tier, rng, rep, info, deadline):
                 if (k in implicated) or corr_reports >= 2:
                     continue
                 corr_reports += 1
-                rep.violation("correspondence model vs implementation broken on a %s: impl %s, model %s"
+                _report(rep, "correspondence model vs implementation broken on a %s: impl %s, model %s"
                               % ((c["relation"] + " variant") if c else "base program", str(i)[:150], str(m)[:150]),
                               {"kind": "correspondence", "program": batch[k][0], "files": None, "impl": i, "model": m,
                                "relation": "asmlib.same_obs(impl, model)"}, found_input=False)
@@ -980,7 +1032,7 @@ def run_c18(tier, rng, rep, info, deadline):
                 rep.known_finding(fid, KNOWN_TEXT[fid] + "; seen with %s in %s" % (what, json.dumps([l.strip() for l in c["variant"] if what.split()[-1] in l][:3])))
                 hist["rename:known-confirmed-by-counterfactual"] += 1
             else:
-                rep.violation("rename: %s (names without '@' / '_')" % what2,
+                _report(rep, "rename: %s (names without '@' / '_')" % what2,
                               {"kind": "relation", "relation": "rename", "program": x["program"], "variant": x["variant"],
                                "params": x["params"], "base_obs": bo, "variant_obs": xo})
     rep.cov["programs"] = programs
@@ -1289,7 +1341,7 @@ def run_c19(tier, rng, rep, info, deadline):
             clean["kind"] = "include"
             probs = c19_check(clean, i, spl)
             for what, pay, fi in probs:
-                rep.violation(what, pay, fi)
+                _report(rep, what, pay, fi)
             rep.cov["traces_validated_against_impl"] += 1
             if m[0] == "UNMODELLED":
                 hist["model:unmodelled"] += 1
@@ -1299,7 +1351,7 @@ def run_c19(tier, rng, rep, info, deadline):
                     corr.append((c, i, m))
         for c, i, m in corr[:max(0, 2 - corr_reports)]:
             corr_reports += 1
-            rep.violation("correspondence model vs implementation broken on a program with INCLUDE (%s): impl %s, model %s"
+            _report(rep, "correspondence model vs implementation broken on a program with INCLUDE (%s): impl %s, model %s"
                           % (c["shape"], str(i)[:150], str(m)[:150]),
                           {"kind": "correspondence", "program": c["main"], "files": c["files"], "impl": i, "model": m,
                            "relation": "asmlib.same_obs(impl, model)"}, found_input=False)
@@ -1322,7 +1374,7 @@ def run_c19(tier, rng, rep, info, deadline):
         rep.count(("cli", _h([c["main"], c["files"]])), nontrivial=True)
         hist["cli:%s:%s" % (c["expect"], _cls(c["_inc"]))] += 1
         for what, pay, fi in ps:
-            rep.violation(what, pay, fi)
+            _report(rep, what, pay, fi)
     rep.cov["programs"] = programs
     rep.cov["input_distribution"] = dict(hist)
     rep.cov["rule"] = (
@@ -1362,6 +1414,9 @@ def run(pid, tier, seed, rep, info):
     rng = common.rng_for(seed, pid)
     proof_ok, details = rep.proof(info)
     deadline = time.time() + {"quick": 55, "thorough": 540}[tier]
+    global _FP0
+    _FP0 = _fingerprint()
+    rep.cov["repo_fingerprint"] = _FP0
     try:
         # sanity probe: an implementation that cannot be imported would make every case 'INTERNAL' on both sides
         probe = asmlib.impl_batch([(["L NOP\n", " BRA L\n"], None)])[0]
@@ -1372,6 +1427,9 @@ def run(pid, tier, seed, rep, info):
         {"C17": run_c17, "C18": run_c18, "C19": run_c19}[pid](tier, rng, rep, info, deadline)
         if rep.cov["evaluations"] == 0:
             rep.violation("no case was evaluated", {"kind": "probe"}, found_input=False)
+        if _fingerprint() != _FP0:
+            rep.cov["repo_changed_during_run"] = True
+            log("  note: the sources under %s changed while %s was running" % (common.REPO, pid))
     finally:
         asmlib.close_pool()
     if pid in info["props"] and not proof_ok and not rep.violations:
@@ -1383,24 +1441,13 @@ def run(pid, tier, seed, rep, info):
 def replay(pid, path):
     r = json.load(open(path))
     common.build()
-    kind = r.get("kind")
     try:
-        if kind == "correspondence":
-            files = r.get("files")
-            i = asmlib.impl_batch([(r["program"], files)])[0]
-            m = asmlib.model_batch([(r["program"], files)])[0]
-            probs = [] if asmlib.same_obs(i, m) else [("impl %s model %s" % (str(i)[:150], str(m)[:150]), r, False)]
-        elif kind in ("history", "cli"):
-            probs = c17_replay(r)
-        elif kind == "relation":
-            probs = c18_replay(r)
-        elif kind == "include":
-            probs = c19_replay(r)
-        else:
-            print("replay: nothing executable recorded (%s)" % r.get("what", "")[:200])
-            return 1
+        probs = _replay_problems(r)
     finally:
         asmlib.close_pool()
+    if probs is None:
+        print("replay: nothing executable recorded (%s)" % r.get("what", "")[:200])
+        return 1
     for what, _, _ in probs[:3]:
         log("  -> " + what[:300])
     print("replay:", "still fails" if probs else "passes now")
